@@ -1,6 +1,7 @@
 package main
 
 import (
+	"os"
 	"sync"
 	"time"
 
@@ -104,6 +105,15 @@ func applySound(c soundCfg) {
 	s.UseTTMove = c.TT
 	s.UseQSTT = c.TT
 	s.UseQuiescence = c.QS
+	if os.Getenv("VERIF_DBG_NOSEE") != "" {
+		s.UseSEE = false
+	}
+	if os.Getenv("VERIF_DBG_NOSTANDPAT") != "" {
+		s.UseQSStandpat = false
+	}
+	if os.Getenv("VERIF_DBG_NOPNQ") != "" {
+		s.UsePromNonQuiet = false
+	}
 }
 
 func soundFromBits(b int, qs bool) soundCfg {
@@ -154,9 +164,10 @@ var slowSearchesStopped int
 // reference minimax (shares nothing with alphabeta.go): the engine's own generator,
 // evaluator and draw test; quiescence off.
 type refSearch struct {
-	mg    []*movegen.Movegen
-	eval  *evaluator.Evaluator
-	nodes int
+	mg     []*movegen.Movegen
+	eval   *evaluator.Evaluator
+	nodes  int
+	budget int // 0 = unlimited; when exceeded the result is meaningless and the caller skips the case
 }
 
 func newRefSearch() *refSearch {
@@ -222,4 +233,205 @@ func (r *refSearch) rootValues(p *position.Position, depth int) (map[Move]Value,
 		}
 	}
 	return res, best
+}
+
+// reference quiescence (no windows, no ordering): the value the engine's qsearch computes when nothing
+// is cut: stand-pat value when not in check, all moves when in check, otherwise the non-quiet moves the
+// engine's generator delivers that pass the good-capture test; mate when in check without legal moves.
+func (r *refSearch) quiesce(p *position.Position, ply int) Value {
+	r.nodes++
+	if r.budget > 0 && r.nodes >= r.budget {
+		return 0
+	}
+	if ply >= MaxDepth {
+		return r.eval.Evaluate(p)
+	}
+	inCheck := p.HasCheck()
+	best := Value(-32000)
+	if !inCheck {
+		best = r.eval.Evaluate(p)
+	}
+	mode := movegen.GenNonQuiet
+	if inCheck {
+		mode = movegen.GenAll
+	}
+	mg := movegen.NewMoveGen()
+	ml := mg.GeneratePseudoLegalMoves(p, mode, false)
+	moves := make([]Move, len(*ml))
+	copy(moves, *ml)
+	searched := 0
+	for _, m := range moves {
+		if !inCheck {
+			good := false
+			if config.Settings.Search.UseSEE {
+				good = search.VerifSee(p, m) > 0
+			} else {
+				good = p.GetPiece(m.From()).ValueOf()+50 < p.GetPiece(m.To()).ValueOf() ||
+					(p.LastMove() != MoveNone && p.LastMove().To() == m.To() && p.LastCapturedPiece() != PieceNone) ||
+					!p.IsAttacked(m.To(), p.NextPlayer().Flip())
+			}
+			if !good {
+				continue
+			}
+		}
+		p.DoMove(m)
+		if !p.WasLegalMove() {
+			p.UndoMove()
+			continue
+		}
+		var v Value
+		if inCheck && isDraw(p) {
+			v = ValueDraw
+		} else {
+			v = -r.quiesce(p, ply+1)
+		}
+		p.UndoMove()
+		searched++
+		if v > best {
+			best = v
+		}
+	}
+	if searched == 0 && inCheck {
+		return -ValueCheckMate + Value(ply)
+	}
+	return best
+}
+
+// minimaxQ: depth-d minimax with the reference quiescence at the horizon
+func (r *refSearch) minimaxQ(p *position.Position, depth, ply int) Value {
+	if depth == 0 {
+		return r.quiesce(p, ply)
+	}
+	mg := movegen.NewMoveGen()
+	ml := mg.GenerateLegalMoves(p, movegen.GenAll)
+	moves := make([]Move, len(*ml))
+	copy(moves, *ml)
+	if len(moves) == 0 {
+		if p.HasCheck() {
+			return -ValueCheckMate + Value(ply)
+		}
+		return ValueDraw
+	}
+	best := Value(-32000)
+	for _, m := range moves {
+		p.DoMove(m)
+		var v Value
+		if isDraw(p) {
+			v = ValueDraw
+		} else {
+			v = -r.minimaxQ(p, depth-1, ply+1)
+		}
+		p.UndoMove()
+		if v > best {
+			best = v
+		}
+	}
+	return best
+}
+
+// the same reference with plain fail-hard alpha-beta (natural generation order, no other technique):
+// exact at the root, fast enough for rich positions
+func (r *refSearch) quiesceAB(p *position.Position, ply int, alpha, beta Value) Value {
+	r.nodes++
+	if ply >= MaxDepth {
+		return r.eval.Evaluate(p)
+	}
+	inCheck := p.HasCheck()
+	if !inCheck {
+		sp := r.eval.Evaluate(p)
+		if sp >= beta {
+			return beta
+		}
+		if sp > alpha {
+			alpha = sp
+		}
+	}
+	mode := movegen.GenNonQuiet
+	if inCheck {
+		mode = movegen.GenAll
+	}
+	mg := movegen.NewMoveGen()
+	ml := mg.GeneratePseudoLegalMoves(p, mode, false)
+	moves := make([]Move, len(*ml))
+	copy(moves, *ml)
+	searched := 0
+	for _, m := range moves {
+		if !inCheck {
+			if config.Settings.Search.UseSEE {
+				if search.VerifSee(p, m) <= 0 {
+					continue
+				}
+			}
+		}
+		p.DoMove(m)
+		if !p.WasLegalMove() {
+			p.UndoMove()
+			continue
+		}
+		var v Value
+		if inCheck && isDraw(p) { // the engine tests repetition / fifty moves in quiescence only below checked nodes
+			v = ValueDraw
+		} else {
+			v = -r.quiesceAB(p, ply+1, -beta, -alpha)
+		}
+		p.UndoMove()
+		searched++
+		if v >= beta {
+			return beta
+		}
+		if v > alpha {
+			alpha = v
+		}
+	}
+	if searched == 0 && inCheck {
+		m := -ValueCheckMate + Value(ply)
+		if m >= beta {
+			return beta
+		}
+		if m > alpha {
+			return m
+		}
+		return alpha
+	}
+	return alpha
+}
+
+func (r *refSearch) alphaBetaQ(p *position.Position, depth, ply int, alpha, beta Value) Value {
+	if depth == 0 {
+		return r.quiesceAB(p, ply, alpha, beta)
+	}
+	mg := movegen.NewMoveGen()
+	ml := mg.GenerateLegalMoves(p, movegen.GenAll)
+	moves := make([]Move, len(*ml))
+	copy(moves, *ml)
+	if len(moves) == 0 {
+		v := ValueDraw
+		if p.HasCheck() {
+			v = -ValueCheckMate + Value(ply)
+		}
+		if v >= beta {
+			return beta
+		}
+		if v > alpha {
+			return v
+		}
+		return alpha
+	}
+	for _, m := range moves {
+		p.DoMove(m)
+		var v Value
+		if isDraw(p) {
+			v = ValueDraw
+		} else {
+			v = -r.alphaBetaQ(p, depth-1, ply+1, -beta, -alpha)
+		}
+		p.UndoMove()
+		if v >= beta {
+			return beta
+		}
+		if v > alpha {
+			alpha = v
+		}
+	}
+	return alpha
 }
